@@ -763,6 +763,8 @@ func workerMain(markerPath string) {
 				runLpSeq(t, a)
 			case "lphist":
 				runLpHist(t, a)
+			case "lpburst":
+				runLpBurst(t, a)
 			}
 			for k := range a.distinct {
 				a.res.Distinct = append(a.res.Distinct, k)
@@ -789,6 +791,14 @@ func describeCase(t task, a *acc) {
 	ex := map[string]any{}
 	a.res.Extra = ex
 	defer func() { recover() }()
+	if t.Family == -2 { // fragment burst history
+		c := burstDecode(t.Lo)
+		ex["case"] = fmt.Sprintf("n=%d local=%v: %s", lpConfigs[t.N].n, lpConfigs[t.N].local, c)
+		fr := burstFrames(c)
+		ex["input_hex"] = inputHex(fr[len(fr)-1].bytes)
+		ex["len"] = len(fr[len(fr)-1].bytes)
+		return
+	}
 	if len(t.Prefix) > 0 { // lpseq single: prefix[0] then lpAlphabet[Lo]
 		cfg := lpConfigs[t.N]
 		hist := []int64{}
